@@ -878,7 +878,7 @@ impl Desugar for (t::CoData, t::EntityId) {
                                 out = Alloc::alloc(desugarer, b::Pi(pat, out).into(), prev)
                             }
                             | b::CoPatternItem::Dtor(dtor) => {
-                                panic!("dtor in codata arm params: {:?}", dtor)
+                                return Err(DesugarError::DestructorInCodataArmParameters(dtor.0));
                             }
                         }
                     }
